@@ -304,6 +304,132 @@ def deep_attempt(pt, job, timeout):
     return res
 
 
+# ---------------------------------------------------------------------------------------------
+# sessions: several compilations in ONE interpreter (totality must not depend on what was compiled before)
+# ---------------------------------------------------------------------------------------------
+def session_program(pt, name, version):
+    """-> expression (or ('router', r)); built fresh for every step"""
+    Int, Seq, Pop, Approve, Bytes, abi = pt.Int, pt.Seq, pt.Pop, pt.Approve, pt.Bytes, pt.abi
+    u64 = pt.TealType.uint64
+    # ---- programs that must be REFUSED (the prelude)
+    if name == "sub_illtyped_body":
+        @pt.Subroutine(u64)
+        def ill_typed(x):
+            return x + Bytes("oops")
+        return Seq(Pop(ill_typed(Int(1))), Approve())
+    if name == "sub_illtyped_body_byref":
+        @pt.Subroutine(pt.TealType.none)
+        def ill_ref(x: pt.ScratchVar):
+            return x.store(Bytes("a") + Int(1))
+        v = pt.ScratchVar(u64)
+        return Seq(v.store(Int(1)), ill_ref(v), Approve())
+    if name == "abi_sub_illtyped_body":
+        @pt.ABIReturnSubroutine
+        def ill_abi(a: abi.Uint64, *, output: abi.Uint64):
+            return output.set(a.get() + Bytes("x"))
+        a = abi.Uint64()
+        r = abi.Uint64()
+        return Seq(a.set(Int(1)), ill_abi(a).store_into(r), Approve())
+    if name == "sub_body_raises":
+        @pt.Subroutine(u64)
+        def boom(x):
+            raise ValueError("user code")
+        return Seq(Pop(boom(Int(1))), Approve())
+    if name == "break_outside":
+        return Seq(pt.Break(), Approve())
+    if name == "op_too_new":
+        return Seq(Pop(pt.Sqrt(Int(4))), Pop(pt.BytesZero(Int(3))), Approve())
+    if name == "too_many_slots":
+        vs = [pt.ScratchVar(u64) for _ in range(257)]
+        return Seq(*[v.store(Int(i)) for i, v in enumerate(vs)], Approve())
+    if name == "return_bytes_main":
+        return pt.Return(Bytes("x"))
+    if name == "router_empty":
+        return ("router", pt.Router("r"))
+    if name == "router_illtyped_method":
+        r = pt.Router("r", pt.BareCallActions(no_op=pt.OnCompleteAction.create_only(Approve())))
+
+        @pt.ABIReturnSubroutine
+        def m(a: abi.Uint64, *, output: abi.Uint64):
+            return output.set(a.get() + Bytes("x"))
+        r.add_method_handler(m)
+        return ("router", r)
+    # ---- programs that must be ACCEPTED wherever their constructs exist (the acceptance slice)
+    if name == "abi_uint64_main":
+        a = abi.Uint64()
+        return Seq(a.set(Int(5)), a.get())
+    if name == "abi_bool_byte_main":
+        b = abi.Bool()
+        c = abi.Byte()
+        return Seq(b.set(Int(1)), c.set(Int(7)), Pop(b.get()), pt.Return(c.get()))
+    if name == "abi_two_values_loop":
+        a = abi.Uint64()
+        b = abi.Uint16()
+        return Seq(a.set(Int(0)), b.set(Int(3)), pt.While(a.get() < b.get()).Do(a.set(a.get() + Int(1))), pt.Return(a.get()))
+    if name == "abi_string_main":
+        s_ = abi.String()
+        return Seq(s_.set(Bytes("hi")), Pop(s_.length()), Approve())
+    if name == "scratchvar_main":
+        x = pt.ScratchVar(u64)
+        return Seq(x.store(Int(5)), pt.Return(x.load()))
+    if name == "loop_first":
+        return Seq(pt.While(pt.Txn.fee() < Int(3)).Do(Pop(Int(1))), Approve())
+    if name == "long_pop_50":
+        return Seq(*[Pop(Int(i)) for i in range(50)], Approve())
+    if name == "sub_ok":
+        @pt.Subroutine(u64)
+        def fine(x):
+            return x + Int(1)
+        return Seq(Pop(fine(Int(1))), Approve())
+    if name == "abi_sub_ok":
+        @pt.ABIReturnSubroutine
+        def add1(a: abi.Uint64, *, output: abi.Uint64):
+            return output.set(a.get() + Int(1))
+        a = abi.Uint64()
+        r = abi.Uint64()
+        return Seq(a.set(Int(1)), add1(a).store_into(r), pt.Return(r.get()))
+    if name == "router_ok":
+        r = pt.Router("r", pt.BareCallActions(no_op=pt.OnCompleteAction.create_only(Approve())))
+
+        @pt.ABIReturnSubroutine
+        def add2(a: abi.Uint64, *, output: abi.Uint64):
+            return output.set(a.get() + Int(2))
+        r.add_method_handler(add2)
+        return ("router", r)
+    raise KeyError(name)
+
+
+def run_session(pt, job):
+    import hashlib
+    steps = []
+    for st_ in job["session"]:
+        j = dict(st_)
+        j.setdefault("app", True)
+        out = {"prog": st_["prog"], "version": st_["version"]}
+        signal.signal(signal.SIGALRM, _alarm)
+        signal.setitimer(signal.ITIMER_REAL, job.get("timeout", 30))
+        try:
+            prog = session_program(pt, st_["prog"], st_["version"])
+            teal = compile_it(pt, prog, j)
+            out.update({"outcome": "teal", "sha": hashlib.sha1(teal.encode()).hexdigest()[:12], "lines": len(teal.split("\n")),
+                        "frame_ops_in_main": any(l.startswith("frame_") for l in teal.split("\n")[:6])})
+        except Timeout:
+            out.update({"outcome": "timeout"})
+        except RecursionError as e:
+            out.update({"outcome": "crash", "exc": "RecursionError", "tb": tb_summary(e)})
+        except BaseException as e:  # noqa
+            if isinstance(e, (KeyboardInterrupt, SystemExit)):
+                raise
+            kind = "pyteal" if is_pyteal_error(pt, e) else "crash"
+            if kind == "crash" and st_["prog"] == "sub_body_raises" and isinstance(e, ValueError) and str(e) == "user code":
+                kind = "user-exception"       # raised by the user's own subroutine body, passed through
+            out.update({"outcome": kind, "exc": type(e).__name__, "msg": str(e)[:160].replace("\n", " "), "tb": tb_summary(e)})
+        finally:
+            signal.setitimer(signal.ITIMER_REAL, 0)
+        steps.append(out)
+    return {"outcome": "session", "steps": steps}
+
+
 def main():
     import pyteal as pt
     default_limit = sys.getrecursionlimit()
@@ -312,6 +438,12 @@ def main():
         if not line:
             continue
         job = json.loads(line)
+        if "session" in job:
+            r = run_session(pt, job)
+            r["job"] = job
+            sys.stdout.write(json.dumps(r) + "\n")
+            sys.stdout.flush()
+            continue
         r = attempt(pt, job, job.get("timeout", 30))
         r["recursion_limit"] = default_limit
         if r.get("outcome") == "crash" and r.get("exc") == "RecursionError" and job.get("deep", True):
